@@ -75,6 +75,7 @@ def histories(tier, seed):
         if other:
             ok = draw(st.sampled_from(sorted(OTHER)))
             hist[-1]["set"][ok] = draw(st.sampled_from(OTHER[ok]))
+            hist[-1].pop("style", None)  # only the complete dictionary can carry a non-nonorthogonal key
         return {"family": "G", "entry": "regrid-history", "eq": eq, "options": o, "history": hist, "changes_other_setting": other}
 
     n = 8 if tier == "quick" else 64
@@ -140,7 +141,12 @@ def run(run):
                     bad = positions_differ(a, b)
                     worst_pos = max(worst_pos, bad[1])
                     if bad[0]:
-                        run.failure("C15/other-setting-affected-grid", bad[0], {"desc": h}, {})
+                        if any("nonorthogonal_spacing_method" in s_["set"] for s_ in h["history"]):
+                            # the listed finding (separatrix distribution of the method in force at
+                            # construction) also shows in these histories: same bucket, same label
+                            run.failure("C15/positions-differ-from-fresh-build", bad[0], {"desc": h}, {"history_changes_nonorthogonal_spacing_method": True})
+                        else:
+                            run.failure("C15/other-setting-affected-grid", bad[0], {"desc": h}, {})
             continue
         if a.outcome == "raised":
             run.count(h, nontrivial=False)
